@@ -13,6 +13,7 @@ structure St where
   cfg : Cfg
   s : State
   waiting : List Waiter := []     -- parked journal long-poll clients of the rpc handler
+  late : Option (Nat × Nat) := none   -- a get-or-create request (metric, key) that entered GetOrCreateMapping and waits for its eng.Do
 
 def init : St := { cfg := { maxBudget := 1000, step := 3600, bonus := 10, globalBudget := 1000000 }, s := State.empty }
 
@@ -191,6 +192,15 @@ def step (st : St) (toks : List String) : St × List String :=
           | _ => ""
         ({ st with s := fin.1 }, [s!"race ok={oks.length}{who} errs={showList errs}"])
     | _, _, _, _ => (st, ["bad-op"])
+  | ["park", m, k] =>
+    -- the request has only entered the function: nothing is read or decided yet (the model reads lastCreated at APPLY time)
+    match m.toNat?, k.toNat? with
+    | some m, some k => ({ st with late := some (m, k) }, ["parked"])
+    | _, _ => (st, ["bad-op"])
+  | ["resume", now] =>
+    match st.late, now.toNat? with
+    | some (m, k), some now => let r := getOrCreate st.cfg st.s m k now; ({ st with s := r.1, late := none }, [showMapOut r.2])
+    | _, _ => (st, ["bad-op"])
   | ["reopen"] => ({ st with s := reopen st.s }, ["reopened"])
   | ["dump"] => (st, dump st.s)
   | ["calc", old, expense, last, now, mx, bonus, stp] =>
